@@ -119,6 +119,17 @@ def apply_edit(conc, loads, d, op):
         del blk[op["key"]][op["index"] - 1]
     elif k == "reverse":
         blk[op["key"]].reverse()
+    elif k == "update":
+        import mappyfile
+        leaf = {concretise.case(op["key"], op["kc"]): conc.expected(op["pv"])}
+        if op["delkey"]:
+            leaf[op["delkey"]] = "__delete__"
+        patch = leaf
+        for key, idx in reversed(op["path"]):
+            patch = {key: patch} if idx == 0 else {key: [None] * (idx - 1) + [patch]}
+        res = mappyfile.update(d, patch)
+        if res is not d:
+            raise AssertionError("update did not return d1")
     elif k == "sethidden":
         blk[op["key"]] = "hidden VALUE 1 2 3"
     elif k == "sethiddenkv":
